@@ -93,6 +93,7 @@ def generate(job):
         spec["j_later"] = rs.choice(["0_then_all", "1", "all", "iid"])
         if spec["j_later"] == "1":
             spec["N"] = min(spec["N"], 7)  # one acceptance per refill batch: keep the number of batches small
+    spec["variant"] = rs.weighted([("plain", 6), ("cal_max", 2), ("no_force", 1), ("weights", 1)]) if kind == "flat" else ("cal_max" if (kind == "config" and rs.chance(0.3)) else "plain")
     if kind in ("flat", "gen_mc"):
         n = rs.weighted([(2, 1), (3, 4), (4, 3), (5, 3), (6, 2)])
         m0, ms = gen_masses(rs, n, rs.weighted([("plain", 5), ("light", 2), ("massless", 2), ("threshold", 2)]))
@@ -121,6 +122,10 @@ def qmom(np, M, a, b):
 
 def m2(np, p):
     return p[..., 0] ** 2 - np.sum(p[..., 1:] ** 2, axis=-1)
+
+
+class StepCap(BaseException):
+    """the simulated run exceeded its proposal budget (e.g. a refill loop that can never accept): no verdict"""
 
 
 class Recorder:
@@ -161,7 +166,12 @@ def run_generator(spec, log):
     N = spec["N"]
     mode = spec.get("script", "iid")
 
+    drawn = [0]
+
     def script(role, shape, idx, u):
+        drawn[0] += int(np.prod(shape)) if len(shape) else 1
+        if drawn[0] > 6_000_000:
+            raise StepCap()
         if role == "flatten_mass":
             b = pending.get("b")
             out = None
@@ -172,7 +182,8 @@ def run_generator(spec, log):
                 n = w.shape[0]
                 # forced acceptances only among proposals an i.i.d. stream would accept with a sane probability
                 # (force-accepting weight ~ 0 proposals produces near-degenerate kinematics with huge boosts)
-                pos = np.nonzero(w > 1e-3 * np.nanmax(np.where(np.isnan(w), 0.0, w)))[0] if w.size else np.array([], dtype=int)
+                wz = np.where(np.isnan(w), 0.0, w)
+                pos = np.nonzero(wz > 1e-3 * np.max(wz))[0] if wz.size else np.array([], dtype=int)
                 if k == 0:
                     j = {"0": 0, "1": 1, "N-1": N - 1, "N": N, "N+1": N + 1, "half": N // 2}[spec.get("j_first", "half")]
                     want = max(0, min(j, len(pos)))
@@ -212,7 +223,21 @@ def run_generator(spec, log):
             kind = spec["kind"]
             if kind == "flat":
                 g = ph.PhaseSpaceGenerator(spec["m0"], list(spec["mi"]))
-                out = g.generate(N)
+                var = spec.get("variant", "plain")
+                if var == "cal_max":
+                    # tighten the bound with the library's own maximiser first: weights must still be <= 1
+                    g.cal_max_weight()
+                    log.count("probe.cal_max_weight_used")
+                    del rec.batches[:]  # weights evaluated by the maximiser itself are not proposals
+                    pending["b"] = None
+                    out = g.generate(N)
+                elif var == "no_force":
+                    out = g.generate(N, force=False)
+                elif var == "weights":
+                    wts, out = g.generate(N, flatten=False)
+                    spec["_weights_returned"] = np.array(wts).tolist()
+                else:
+                    out = g.generate(N)
             elif kind == "chain":
                 out = ph.generate_phsp(spec["m0"], to_tuple(spec["mi"]), N)
             elif kind == "gen_mc":
@@ -331,7 +356,8 @@ def check_flat_identity(np, log, spec, rec, kindkey):
                 fin = ~np.isnan(w)
                 w = np.where(fin, w, 0.0)
             if not (np.all(w <= 1.0 + 1e-12) and np.all(w >= 0.0)):
-                log.fail("weight-bound", "%s|weight-bound" % kindkey, "acceptance weight outside [0,1]: max %.17g min %.3g (m0=%r, masses=%r)" % (float(np.max(w)), float(np.min(w)), m0, mm))
+                sfx = "|after-cal_max_weight" if spec.get("variant") == "cal_max" else ""
+                log.fail("weight-bound", "%s|weight-bound%s" % (kindkey, sfx), "acceptance weight outside [0,1]: max %.17g min %.3g (m0=%r, masses=%r)%s" % (float(np.max(w)), float(np.min(w)), m0, mm, "; the bound had been tightened by cal_max_weight()" if sfx else ""))
                 return False
             ms = b["masses"]
             # reference: kinematic limits and densities, independently of the library
@@ -381,6 +407,13 @@ def execute(spec):
     kind = spec["kind"]
     try:
         out, rec, draws = run_generator(spec, log)
+    except StepCap:
+        # bounded runs: a generator that keeps proposing without ever accepting is cut off; termination is not
+        # part of C10 (with cal_max_weight this is the recorded finding showing up as a starved refill loop)
+        log.count("probe.step_cap_reached_no_verdict")
+        res = log.result(spec=spec, nontrivial=False)
+        res["opkinds"] = {kind + ".capped": 1}
+        return res
     except Exception as e:
         import traceback
 
@@ -412,6 +445,18 @@ def execute(spec):
                 ps = [arr[i::n] for i in range(n)]
             else:
                 ps = [np.array(p) for p in out]
+            var = spec.get("variant", "plain") if kind == "flat" else "plain"
+            if var == "no_force" and len(ps) == n and all(p.shape == ps[0].shape and p.ndim == 2 and p.shape[1] == 4 for p in ps):
+                # without `force` the first batch is returned as it is: any number of events, all physical
+                N = ps[0].shape[0]
+                if N == 0:
+                    log.count("probe.no_force_returned_no_event")
+                    raise StopIteration
+            if var == "weights":
+                w = np.array(spec.pop("_weights_returned"))
+                if (w.shape != (N,) and w.shape != ()) or np.any(w > 1 + 1e-12) or np.any(w < 0):
+                    log.fail("weight-bound", "flat|returned-weights", "generate(flatten=False) returned weights outside [0,1] or of the wrong length", )
+                    raise StopIteration
             if len(ps) != n or any(p.shape != (N, 4) for p in ps):
                 log.fail("count", "%s|count" % kind, "requested N=%d events of %d bodies, got shapes %s (script %s/%s/%s)" % (N, n, [p.shape for p in ps], spec.get("script"), spec.get("j_first"), spec.get("j_later")))
                 raise StopIteration
@@ -427,7 +472,7 @@ def execute(spec):
                 log.fail("momentum-conservation", "%s|momentum-conservation" % kind, "momenta do not add up to the parent at rest: |sum E - m0| = %.3g, |sum p| = %.3g (m0=%r, masses=%r)" % (dE, dp, m0, mi))
                 raise StopIteration
             # exactly-once / order: emitted event r comes from the r-th accepted proposal
-            if n >= 3 and rec.batches and all(b["rnd"] is not None for b in rec.batches):
+            if var in ("plain", "cal_max") and n >= 3 and rec.batches and all(b["rnd"] is not None for b in rec.batches):
                 acc = [[] for _ in range(n - 2)]
                 for b in rec.batches:
                     sel = b["weight"] > b["rnd"]
